@@ -133,6 +133,73 @@ pub fn leave_safe_region() {
     s.driver_parked = false;
 }
 
+// ---------------------------------------------------------------------------------------------
+// A stop request (StopForFork / Shutdown) injected DURING a collection (hx_gc `forkgc`, `shutdowngc`)
+// ---------------------------------------------------------------------------------------------
+
+/// callback points of one GC at which an armed stop request is made
+pub const PT_STOP: usize = 0; // inside `stop_all_mutators` (world stopped, Gc goal current), on the GC thread
+pub const PT_ROOTS: usize = 1; // inside `scan_vm_specific_roots`, on the GC thread
+pub const PT_WEAK: usize = 2; // inside the first `process_weak_refs` of the GC, on the GC thread
+/// inside `resume_mutators`: the GC thread holds the `WorkerMonitor` mutex there (`on_last_parked` →
+/// `on_gc_finished` → `resume_mutators`), so the request is made by a helper thread spawned at that point;
+/// its `make_request` gets the mutex as soon as the last parked worker waits (or has exited).
+pub const PT_RESUME: usize = 3;
+pub const PT_COUNT: usize = 4;
+
+/// 0 = idle; `1 + point + 16 * shutdown` = armed; `0x100 + point` = the armed request has been made
+static STOP_STATE: AtomicUsize = AtomicUsize::new(0);
+static STOP_HELPER: Mutex<Option<std::thread::JoinHandle<()>>> = Mutex::new(None);
+
+/// Arm: the next time a GC reaches `point`, call `prepare_to_fork` (or `mmtk_shutdown`) there.
+pub fn arm_stop_request(point: usize, shutdown: bool) {
+    STOP_STATE.store(1 + point + if shutdown { 16 } else { 0 }, Ordering::SeqCst);
+}
+/// Disarm; returns `Some(point)` if the request was made during the collection.
+pub fn disarm_stop_request() -> Option<usize> {
+    match STOP_STATE.swap(0, Ordering::SeqCst) {
+        p if p >= 0x100 => Some(p - 0x100),
+        _ => None,
+    }
+}
+/// Join the helper thread of `PT_RESUME` (if any): afterwards its `make_request` has returned.
+pub fn join_stop_helper() {
+    if let Some(h) = STOP_HELPER.lock().unwrap().take() {
+        let _ = h.join();
+    }
+}
+fn make_stop_request(shutdown: bool) {
+    if shutdown {
+        mmtk::memory_manager::mmtk_shutdown(mmtk());
+    } else {
+        mmtk().prepare_to_fork();
+    }
+}
+fn stop_request_point(point: usize) {
+    let a = STOP_STATE.load(Ordering::SeqCst);
+    if a == 0 || a >= 0x100 || (a - 1) % 16 != point {
+        return;
+    }
+    if STOP_STATE.compare_exchange(a, 0x100 + point, Ordering::SeqCst, Ordering::SeqCst).is_err() {
+        return;
+    }
+    let shutdown = a > 16;
+    if point == PT_RESUME {
+        let h = std::thread::Builder::new()
+            .name("stopreq".into())
+            .spawn(move || {
+                mmtk::verif::gc::set_tid(1);
+                make_stop_request(shutdown);
+            })
+            .expect("spawn stop-request helper");
+        *STOP_HELPER.lock().unwrap() = Some(h);
+    } else {
+        // only makes the request and returns (MMTK::prepare_to_fork -> stop_gc_threads_for_forking ->
+        // prepare_surrender_buffer + WorkerMonitor::make_request)
+        make_stop_request(shutdown);
+    }
+}
+
 pub fn stop_all_mutators<F>(mut visitor: F)
 where
     F: FnMut(&'static mut Mutator<VerifVM>),
@@ -145,6 +212,7 @@ where
             s = CV.wait(s).unwrap();
         }
     }
+    stop_request_point(PT_STOP);
     STOPS.fetch_add(1, Ordering::SeqCst);
     WEAK_ROUND.store(0, Ordering::SeqCst);
     COPIES_CUR.lock().unwrap().clear();
@@ -157,6 +225,7 @@ where
 
 pub fn resume_mutators() {
     ev(Kind::VmResume, 0, 0);
+    stop_request_point(PT_RESUME);
     {
         let mut cur = COPIES_CUR.lock().unwrap();
         let mut last = COPIES_LAST.lock().unwrap();
@@ -268,6 +337,7 @@ pub fn scan_mutator_roots(mutator: &'static mut Mutator<VerifVM>, mut factory: i
 
 pub fn scan_vm_roots(mut factory: impl RootsWorkFactory<VSlot>) {
     ev(Kind::VmScanVmRoots, 0, 0);
+    stop_request_point(PT_ROOTS);
     // report in several packets so that root packets of different sizes exist
     let mut slots = Vec::with_capacity(64);
     for cell in VM_ROOTS.iter() {
@@ -335,6 +405,9 @@ pub fn process_weak_refs(
     tracer_context: impl ObjectTracerContext<VerifVM>,
 ) -> bool {
     let round = WEAK_ROUND.fetch_add(1, Ordering::SeqCst);
+    if round == 0 {
+        stop_request_point(PT_WEAK);
+    }
     let epoch = STOPS.load(Ordering::SeqCst);
     let mut tab = EPH.lock().unwrap();
     let pending: Vec<usize> = tab
